@@ -66,7 +66,8 @@ impl ScriptTemplate {
     fn map_string_to_match_token(code: &str) -> Result<MatchToken, ScriptTemplateErrors> {
         // Number OP_CODES
         if code.len() < 3 {
-            if let Ok(num_code) = u8::from_str(code) {
+            // Only the canonical spellings "0".."16" are numeric aliases; "01" or "07" is the hex of a one byte push.
+            if let Some(num_code) = u8::from_str(code).ok().filter(|n| n.to_string() == code) {
                 match num_code {
                     0 => return Ok(MatchToken::OpCode(OP_0)),
                     v @ 1..=16 => return Ok(MatchToken::OpCode(OpCodes::from_u8(v + 80).unwrap())),
